@@ -1,6 +1,7 @@
 //! Shared core of the verification harness (see /verif/DESIGN.md sections 2-4).
 pub mod engine;
 pub mod lens;
+pub mod ralloc;
 pub mod registry;
 pub mod script;
 
